@@ -121,6 +121,7 @@ func c04canonical(rng *core.Rng, n int) []c04session {
 	// none (length word 4): nothing of the earlier message may be taken for its body
 	stale := pg.Parse("", "select 1", []uint32{0x45564c00, 0x53454c00})
 	all := []c04session{
+		{Name: "copy-binary-copydone-inside-the-first-row", Msgs: cat([][]byte{start, pg.Query("copyb in"), pg.CopyData(bin[:20]), pg.CopyDone(), pg.CopyData(bin[20:]), pg.Query("select 1"), pg.Terminate()})},
 		{Name: "header-only-query-after-unread-tail", Msgs: cat([][]byte{start, stale, pg.Raw('Q', nil), pg.Sync(), pg.Query("select 1"), pg.Terminate()})},
 		{Name: "header-only-parse-bind-after-unread-tail", Msgs: cat([][]byte{start, stale, pg.Raw('P', nil), pg.Sync(), stale, pg.Raw('B', nil), pg.Raw('E', nil), pg.Sync(), pg.Terminate()})},
 		{Name: "copy-binary-lying-containers", Msgs: cat([][]byte{start, pg.Query("copya in"), pg.CopyData(abin), pg.CopyDone(), pg.Query("select 1"), pg.Terminate()})},
@@ -181,9 +182,9 @@ func (ch c04) Run(c *core.Ctx) {
 	envTLS := hs.Start(hs.Parse, wire.MessageBufferSize(c04L), wire.TLSConfig(hs.ServerTLS()))
 	envs := c04envs{plain: hs.Start(hs.Parse, wire.MessageBufferSize(c04L)), auth: hs.Start(hs.Parse, wire.MessageBufferSize(c04L), wire.SessionAuthStrategy(wire.ClearTextPassword(c04validator)))}
 	nb := ch.Batches(c.Tier)
-	ncanon, nmut := 23, 2500
+	ncanon, nmut := 24, 2500
 	if c.Tier == "thorough" {
-		ncanon, nmut = 42, 400000
+		ncanon, nmut = 43, 400000
 	}
 	canon := c04canonical(core.NewRng(c.Seed, "C04canon", 0, 0), ncanon)
 	cases := 0
@@ -805,6 +806,10 @@ func (ch c04) fabrication(c *core.Ctx, stream []byte, conn *tr.Conn, cs any) {
 			}
 		case "copyread":
 			r := e.Data.(hs.CopyRec)
+			if m, _ := cs.(map[string]any); r.ErrNil && r.Row != nil && m != nil && m["session"] == "copy-binary-copydone-inside-the-first-row" {
+				c.Violate("fabricated", "the binary row reader returned a row although the stream was ended (CopyDone) inside its first row", fmt.Sprintf("row %v", r.Row), cs)
+				return
+			}
 			if r.ErrNil && r.Chunk != nil && !bytes.Contains(stream, r.Chunk) {
 				c.Violate("fabricated", "COPY handler received a chunk that is not part of the input", hexs(r.Chunk), cs)
 				return
